@@ -132,6 +132,7 @@ type MonitorSpec struct {
 	Lock     string   // field name of the mutex
 	Guards   []string // guarded field names ("f" of the monitor type, or "Type.f" for every object of Type)
 	Inv      *Clause  // monitor invariant over RecvName: assumed at Lock, asserted at Unlock
+	Assuming *Clause  // resource assumption: assumed at Lock, never asserted (listed as trusted)
 }
 
 type GlobalSpec struct {
@@ -620,7 +621,15 @@ func (sp *Specs) ParseSpecText(lines []specLine, file, pkgPath string) error {
 		case "monitor":
 			// monitor recv Type lockfield guards f1 f2 ... [invariant expr]
 			rest := s.rest
-			var inv *Clause
+			var inv, assuming *Clause
+			if i := strings.Index(rest, " assuming "); i >= 0 {
+				cl, err := parseClause(rest[i+len(" assuming "):], file, s.line)
+				if err != nil {
+					return err
+				}
+				assuming = cl
+				rest = rest[:i]
+			}
 			if i := strings.Index(rest, " invariant "); i >= 0 {
 				cl, err := parseClause(rest[i+len(" invariant "):], file, s.line)
 				if err != nil {
@@ -633,7 +642,7 @@ func (sp *Specs) ParseSpecText(lines []specLine, file, pkgPath string) error {
 			if len(f) < 5 || f[3] != "guards" {
 				return errf("monitor recv Type lockfield guards f1 f2 ... [invariant expr]")
 			}
-			sp.Monitors[pkgPath+"."+f[1]] = &MonitorSpec{PkgPath: pkgPath, RecvName: f[0], TypeName: f[1], Lock: f[2], Guards: f[4:], Inv: inv}
+			sp.Monitors[pkgPath+"."+f[1]] = &MonitorSpec{PkgPath: pkgPath, RecvName: f[0], TypeName: f[1], Lock: f[2], Guards: f[4:], Inv: inv, Assuming: assuming}
 		case "global":
 			f := strings.Fields(s.rest)
 			g := &GlobalSpec{PkgPath: pkgPath, Name: f[0]}
